@@ -691,7 +691,8 @@ class World:
         return obs
 
     def scan(self, nonce, fault=None, record_io=False, spelling=None, verbose=False,
-             set_policy="mixed", walk_policy="shuffled", env=None, excludes=None, read_fault=None, walk_nonce=None):
+             set_policy="mixed", walk_policy="shuffled", env=None, excludes=None, read_fault=None, walk_nonce=None,
+             new_process=True):
         import codelimit.__main__ as cli
         from pathlib import Path
         cwd, arg = self._spelling(spelling)
@@ -700,11 +701,12 @@ class World:
         def fn():
             cli.scan(path=Path(arg), exclude=ex or None, verbose=verbose)
         obs = self.run_process(fn, nonce, cwd, fault, record_io, set_policy, walk_policy, env, read_fault=read_fault,
-                               walk_nonce=walk_nonce)
+                               walk_nonce=walk_nonce, new_process=new_process)
         obs["cache_bytes_len"] = len(self.cache_bytes() or b"") if os.path.exists(self.cache_file) else None
         return obs
 
-    def check(self, args, cwd_mode, quiet, nonce, set_policy="mixed", walk_policy="shuffled", excludes=None):
+    def check(self, args, cwd_mode, quiet, nonce, set_policy="mixed", walk_policy="shuffled", excludes=None,
+              new_process=True):
         import codelimit.__main__ as cli
         from pathlib import Path
         cwd = {"root": self.root, "outside": self.outside, "base": self.top}.get(cwd_mode)
@@ -723,7 +725,7 @@ class World:
 
         def fn():
             cli.check(paths=paths, exclude=ex or None, quiet=quiet, verbose=False)
-        return self.run_process(fn, nonce, cwd, None, False, set_policy, walk_policy)
+        return self.run_process(fn, nonce, cwd, None, False, set_policy, walk_policy, new_process=new_process)
 
     @property
     def baseline_file(self):
